@@ -662,5 +662,111 @@ theorem allocate_no_inversion_pos (m : Model) (lg : Logs) (rule : TaskRule) (l :
     · exact h
   exact hstep.grow.canAdd_false (hset w hwf hskill hteam)
 
+/-! ### "before in the sorted list" -/
+
+theorem sublist_pair_split {a b : Nat} :
+    ∀ {xs : List Nat}, List.Sublist [a, b] xs → ∃ pre post, xs = pre ++ a :: post ∧ b ∈ post := by
+  intro xs
+  induction xs with
+  | nil => intro h; cases h
+  | cons x xs ih =>
+    intro h
+    cases h with
+    | cons _ h' =>
+      obtain ⟨pre, post, e, hb⟩ := ih h'
+      exact ⟨x :: pre, post, by rw [e]; rfl, hb⟩
+    | cons_cons _ h' => exact ⟨[], xs, rfl, List.singleton_sublist.mp h'⟩
+
+theorem sorted_nodup (m : Model) (l : Live) (lg : Logs) (rule : TaskRule) :
+    (sortTasks m l lg rule (cands m l)).Nodup :=
+  (Sort.sortTasks_perm m l lg rule _).nodup_iff.mpr (cands_nodup m l)
+
+/-- in the sorted candidate list an earlier task is at least as urgent as a later one under the
+comparator of the chosen rule -/
+theorem sorted_before_le (m : Model) (l : Live) (lg : Logs) (rule : TaskRule) (ts : List Nat)
+    {t1 t2 : Nat} (h : List.Sublist [t1, t2] (sortTasks m l lg rule ts)) :
+    taskLe m l lg rule t1 t2 = true := by
+  have hp := (Sort.sortBy_pairwise (Sort.taskLe_total m l lg rule) (Sort.taskLe_trans m l lg rule)
+    ts).sublist h
+  simpa using hp
+
+/-- **no priority inversion** at the level of `allocate`: `t1` strictly before `t2` in the sorted
+candidate list -/
+theorem allocate_no_inversion (m : Model) (lg : Logs) (rule : TaskRule) (l : Live)
+    (t1 t2 w : Nat)
+    (hord : List.Sublist [t1, t2] (sortTasks m l lg rule (cands m l)))
+    (hna : (m.task t1).isAuto = false) (hnf : (m.task t1).needFac = false)
+    (hnew : w ∈ (allocate m lg rule l).allocW t2) (hold : w ∉ l.allocW t2)
+    (hskill : hasSkill (m.worker w).skills (m.task t1).name = true)
+    (hteam : teamTargets m w t1 = true) :
+    canAdd m (allocate m lg rule l) t1 (some w) Option.none = false := by
+  obtain ⟨pre, post, e, hb⟩ := sublist_pair_split hord
+  have hnd := sorted_nodup m l lg rule
+  rw [e, List.nodup_append] at hnd
+  obtain ⟨_, hnd2, hdis⟩ := hnd
+  have h12 : t2 ≠ t1 := by
+    rintro rfl; exact (List.nodup_cons.mp hnd2).1 hb
+  have h2 : t2 ∉ pre := fun hm => hdis t2 hm t2 (List.mem_cons_of_mem _ hb) rfl
+  exact allocate_no_inversion_pos m lg rule l pre post t1 t2 w e h2 h12 hna hnf hnew hold
+    hskill hteam
+
+/-! ### the idle-worker clause at the end of a working step -/
+
+theorem canAdd_congr {m : Model} {l l' : Live} {t w : Nat}
+    (hW : l'.allocW t = l.allocW t) (hF : l'.allocF t = l.allocF t)
+    (hts : (l'.tstate t ≠ .none ∧ l'.tstate t ≠ .finished) ↔
+      (l.tstate t ≠ .none ∧ l.tstate t ≠ .finished)) :
+    canAdd m l' t (some w) Option.none = canAdd m l t (some w) Option.none := by
+  rw [Bool.eq_iff_iff, canAdd_W_iff, canAdd_W_iff, hW, hF, hts]
+
+theorem stepBody_idle (m : Model) (p : Params) (s : St)
+    (hwork : p.absence.contains s.time = false)
+    (hinv : AllocInv m s.live) (hhw : HoldWorking s.live) (w t : Nat)
+    (hw : w < m.nW) (hfree : (stepBody m p s).live.wstate w = .free)
+    (ht : t < m.nT)
+    (hs : (stepBody m p s).live.tstate t = .ready ∨ (stepBody m p s).live.tstate t = .working)
+    (hna : (m.task t).isAuto = false) (hnf : (m.task t).needFac = false)
+    (hskill : hasSkill (m.worker w).skills (m.task t).name = true)
+    (hteam : teamTargets m w t = true) :
+    canAdd m (stepBody m p s).live t (some w) Option.none = false := by
+  have hres := (stepBody_C03 p hinv hhw).2.2
+  have hwa : workingAt p s.time = true := by unfold workingAt; rw [hwork]; rfl
+  rw [hwa] at hres
+  have hidle5 := hres.freeIdle w hw hfree
+  have habs : (m.worker w).absence.contains s.time = false := by
+    have h1 := hres.1 w hw
+    rw [hfree] at h1
+    exact (Alloc.resState_eq_free (by simpa using h1.symm)).1
+  rw [Alloc.stepBody_live] at hfree hs hidle5 ⊢
+  simp only [hwork, Bool.not_false, if_true] at hfree hs hidle5 ⊢
+  generalize hl1 : absenceSet m s.time true s.live = l1 at *
+  have hfr := Alloc.chkWorking_frame m (allocate m s.logs p.rule l1)
+  have hidle2 : (allocate m s.logs p.rule l1).wasg w = [] := by
+    have : (chkWorking m (allocate m s.logs p.rule l1)).wasg w = [] := hidle5
+    rwa [hfr.2.2.1] at this
+  have hg := allocate_grow m s.logs p.rule l1
+  have hfree1 : l1.wstate w = .free := by
+    have h0 := hg.asg w hidle2
+    rw [← hl1] at h0 ⊢
+    have h0' : s.live.wasg w = [] := h0
+    have habs' : s.time ∉ (m.worker w).absence := by simpa using habs
+    simp [absenceSet, hw, resState, habs', h0']
+  have hs3 : (chkWorking m (allocate m s.logs p.rule l1)).tstate t = .ready ∨
+      (chkWorking m (allocate m s.logs p.rule l1)).tstate t = .working := hs
+  have hs2 : (allocate m s.logs p.rule l1).tstate t = .ready ∨
+      (allocate m s.logs p.rule l1).tstate t = .working := by
+    rcases Alloc.chkWorking_tstate_cases m (allocate m s.logs p.rule l1) t with e | ⟨e, _⟩
+    · rw [e] at hs3; exact hs3
+    · exact Or.inl e
+  have hs1 : l1.tstate t = .ready ∨ l1.tstate t = .working := by rw [← hg.ts]; exact hs2
+  have hc := allocate_idle m s.logs p.rule l1 w t hw hfree1 hidle2 ht hs1 hna hnf hskill hteam
+  rw [← hc]
+  apply canAdd_congr
+  · show (chkWorking m _).allocW t = _; rw [hfr.1]
+  · show (chkWorking m _).allocF t = _; rw [hfr.2.1]
+  · show ((chkWorking m (allocate m s.logs p.rule l1)).tstate t ≠ .none ∧
+      (chkWorking m (allocate m s.logs p.rule l1)).tstate t ≠ .finished) ↔ _
+    rcases hs3 with e | e <;> rcases hs2 with e' | e' <;> simp [e, e']
+
 end NoWait
 end PDesy
